@@ -7210,6 +7210,609 @@ func smallWave25(c *core.Ctx, b *ob) {
 			b.addP(props, core.Discharged, key, "-", fmt.Sprintf("%d read(s) of a uvarint: none converted to a signed type before an unsigned bound", n))
 		}
 	}
+	// (j) sharing memory with the input is opt-in: the zero-copy bits reach a decoder only from the
+	// caller's flags (Parse's argument, the Decoder's option methods). A decoder method that or-s
+	// one of them into the flags it decodes with hands out strings that live in the input — "the map
+	// keeps its own copy of the key" copies the string header, not the bytes.
+	{
+		props := []string{"C10"}
+		key := "zero-copy:only-from-the-caller"
+		zc := jsonConst(c, "ZeroCopy")
+		n, bad := 0, ""
+		for _, fn := range c.RepoFunctions() {
+			if fn.Blocks == nil || !strings.HasPrefix(shortName(fn), "json.") {
+				continue
+			}
+			recv := fn.Signature.Recv()
+			if recv != nil && strings.HasSuffix(recv.Type().String(), "json.Decoder") {
+				continue // the option methods of the exported Decoder: the caller's own request
+			}
+			for _, blk := range fn.Blocks {
+				for _, in := range blk.Instrs {
+					bo, ok := in.(*ssa.BinOp)
+					if !ok || bo.Op != token.OR {
+						continue
+					}
+					if !strings.HasSuffix(bo.Type().String(), "json.ParseFlags") {
+						continue
+					}
+					n++
+					for _, side := range []ssa.Value{bo.X, bo.Y} {
+						if k, isK := constUint(side); isK && zc != 0 && k&zc != 0 {
+							bad = c.InstrPos(bo) + " (" + shortName(fn) + ")"
+						}
+					}
+				}
+			}
+		}
+		switch {
+		case zc == 0:
+			b.addP(props, core.Undecided, key, "-", "json.ZeroCopy not found")
+		case bad != "":
+			b.addP(props, core.Violation, key, bad, "a zero-copy bit (DontCopyString, DontCopyNumber, DontCopyRawMessage) is or-ed into parse flags at "+bad+", outside the Decoder's option methods: values decoded below that point (map keys, strings) share memory with the input although the caller did not ask for it, and change when the input buffer is reused or the Decoder refills its buffer")
+		default:
+			b.addP(props, core.Discharged, key, "-", fmt.Sprintf("%d or-operations on ParseFlags outside the Decoder's option methods: none sets a zero-copy bit", n))
+		}
+	}
+	// (k) a field promoted through an embedded struct pointer lives at pointee+offset: every json
+	// function that is handed such an offset applies it — in its own body or in the closure it
+	// returns. A closure that no longer mentions the captured offset reads the word at the start of
+	// the embedded struct instead of the field (an omitempty decision made on another field).
+	{
+		props := []string{"C01", "C02"}
+		n, bad := 0, ""
+		var used func(v ssa.Value, depth int) bool
+		used = func(v ssa.Value, depth int) bool {
+			if depth > 4 || v.Referrers() == nil {
+				return false
+			}
+			for _, ref := range *v.Referrers() {
+				switch x := ref.(type) {
+				case *ssa.DebugRef:
+					continue
+				case *ssa.Store:
+					// spilled to a cell: follow the cell
+					if x.Val == v {
+						if al, ok := x.Addr.(*ssa.Alloc); ok && used(al, depth+1) {
+							return true
+						}
+						if _, ok := x.Addr.(*ssa.Alloc); !ok {
+							return true
+						}
+						continue
+					}
+					return true
+				case *ssa.MakeClosure:
+					fnc, _ := x.Fn.(*ssa.Function)
+					for i, bnd := range x.Bindings {
+						if bnd == v && fnc != nil && i < len(fnc.FreeVars) && used(fnc.FreeVars[i], depth+1) {
+							return true
+						}
+					}
+				case *ssa.UnOp:
+					if x.Op == token.MUL && used(x, depth+1) {
+						return true
+					}
+					if x.Op != token.MUL {
+						return true
+					}
+				default:
+					return true
+				}
+			}
+			return false
+		}
+		for _, fn := range c.RepoFunctions() {
+			if fn.Blocks == nil || !strings.HasPrefix(shortName(fn), "json.") {
+				continue
+			}
+			for _, p := range fn.Params {
+				if p.Name() != "offset" || p.Type().String() != "uintptr" {
+					continue
+				}
+				n++
+				if !used(p, 0) {
+					bad = c.FuncPos(fn) + " (" + shortName(fn) + ")"
+				}
+			}
+		}
+		key := "embedded-offset:applied"
+		switch {
+		case n == 0:
+			b.addP(props, core.Undecided, key, "-", "no json function takes an offset parameter")
+		case bad != "":
+			b.addP(props, core.Violation, key, bad, "the offset handed to "+bad+" is not used, neither by the function nor by the closure it returns: the field promoted through an embedded struct pointer is looked for at the start of the embedded struct — the omitempty test of B in struct{*E} with E{A, B int} is made on A, so B is dropped when A is zero and written as 0 when only A is set")
+		default:
+			b.addP(props, core.Discharged, key, "-", fmt.Sprintf("%d offset parameters in package json, each used by its function or the closure it builds", n))
+		}
+	}
+	// (l) the size and the encode function of a repeated field substitute the zero value for a nil
+	// element under the same condition: both ask zeroElemOf about the slice's element type. Asked
+	// about the slice type itself (never a pointer) it answers "no substitution", and Size no longer
+	// counts the value the encoder writes for a nil element.
+	{
+		props := []string{"C16", "C03"}
+		key := "repeated-nil-element:siblings-ask-about-the-element-type"
+		shapes := map[string][]string{}
+		for _, fn := range c.RepoFunctions() {
+			if fn.Blocks == nil || !strings.HasPrefix(shortName(fn), "proto.") {
+				continue
+			}
+			for _, ci := range callsIn(fn) {
+				g := staticCallee(ci.Common())
+				if g == nil || g.Name() != "zeroElemOf" || len(ci.Common().Args) == 0 {
+					continue
+				}
+				shape := "another expression"
+				switch x := ci.Common().Args[0].(type) {
+				case *ssa.Parameter:
+					shape = "the type it was given"
+				case *ssa.Call:
+					if x.Common().IsInvoke() && x.Common().Method.Name() == "Elem" {
+						shape = "the element type"
+					}
+				}
+				shapes[shape] = append(shapes[shape], shortName(fn)+" ("+c.InstrPos(ci)+")")
+			}
+		}
+		switch {
+		case len(shapes) == 0:
+			b.addP(props, core.Info, key, "-", "proto does not call zeroElemOf")
+		case len(shapes) > 1 || len(shapes["the element type"]) == 0:
+			var parts []string
+			for sh, fs := range shapes {
+				sort.Strings(fs)
+				parts = append(parts, fmt.Sprintf("%v ask about %s", fs, sh))
+			}
+			sort.Strings(parts)
+			b.addP(props, core.Violation, key, "-", "the callers of zeroElemOf disagree: "+strings.Join(parts, "; ")+" — a nil element of a repeated field of pointers ([]*int32{&a, nil}) is written as the zero value by the encoder and not counted by the size function (or the reverse): Size is short, MarshalTo into Size(v) bytes fails with a short buffer")
+		default:
+			b.addP(props, core.Discharged, key, "-", fmt.Sprintf("%d callers of zeroElemOf, all about the slice's element type", len(shapes["the element type"])))
+		}
+	}
+	// (m) the bitmap of fields already seen by a message rewriter: set or-s the field's bit into its
+	// word and unset and-nots it out. A plain store forgets the other 63 fields of the word: a field
+	// taken for absent gets its rewriter run a second time at the end of the message, with nil input
+	// (a BitOr yields the mask alone, a templated list is emitted twice).
+	for _, spec := range []struct {
+		fn string
+		op token.Token
+	}{{"proto.(fieldset).set", token.OR}, {"proto.(fieldset).unset", token.AND_NOT}} {
+		props := []string{"C19"}
+		key := "fieldset:" + strings.TrimPrefix(spec.fn, "proto.(fieldset).") + "-keeps-the-other-bits"
+		fn := c.Lookup(spec.fn)
+		if fn == nil {
+			if spec.op == token.OR {
+				b.addP(props, core.Undecided, key, "-", spec.fn+" not found")
+			}
+			continue // unset is not called by the rewriters: absent from the program when unused
+		}
+		n, bad := 0, ""
+		for _, blk := range fn.Blocks {
+			for _, in := range blk.Instrs {
+				st, ok := in.(*ssa.Store)
+				if !ok {
+					continue
+				}
+				ia, ok := st.Addr.(*ssa.IndexAddr)
+				if !ok {
+					continue
+				}
+				n++
+				bo, isBO := st.Val.(*ssa.BinOp)
+				okOp := false
+				if isBO && (bo.Op == spec.op || (spec.op == token.AND_NOT && bo.Op == token.AND)) {
+					for _, side := range []ssa.Value{bo.X, bo.Y} {
+						if ld, isLd := side.(*ssa.UnOp); isLd && ld.Op == token.MUL {
+							if ia2, isIA := ld.X.(*ssa.IndexAddr); isIA && ia2.X == ia.X && ia2.Index == ia.Index {
+								okOp = true
+							}
+						}
+					}
+				}
+				if !okOp {
+					bad = c.InstrPos(st)
+				}
+			}
+		}
+		switch {
+		case n == 0:
+			b.addP(props, core.Undecided, key, c.FuncPos(fn), "no store into the bitmap found")
+		case bad != "":
+			b.addP(props, core.Violation, key, bad, spec.fn+" stores a word that is not the old word combined with the field's bit by "+spec.op.String()+": the other fields of the same block of 64 numbers are forgotten (or marked), so a templated field that was present in the input is rewritten a second time at the end of the message — flags 3 with BitOr 16 gives 16, a templated list comes out twice")
+		default:
+			b.addP(props, core.Discharged, key, c.FuncPos(fn), "the word is updated with "+spec.op.String()+" of its old value")
+		}
+	}
+	// (n) every Value the Tokenizer hands out is a window of the input: the text before the
+	// advance (t.json[:k]) or what a scanner returned. A Value taken from anywhere else (a table of
+	// one-byte delimiters) has the right content and the wrong identity: Remaining() no longer
+	// locates it, and writing through it changes the table for every other tokenizer.
+	{
+		props := []string{"C17", "C10"}
+		key := "token:value-is-a-window-of-the-input"
+		fn := c.Lookup("json.(*Tokenizer).Next")
+		if fn == nil {
+			b.addP(props, core.Undecided, key, "-", "json.(*Tokenizer).Next not found")
+		} else {
+			n, bad := 0, ""
+			for _, blk := range fn.Blocks {
+				for _, in := range blk.Instrs {
+					st, ok := in.(*ssa.Store)
+					if !ok {
+						continue
+					}
+					fa, ok := st.Addr.(*ssa.FieldAddr)
+					if !ok || fieldNameOf(fa) != "Value" {
+						continue
+					}
+					n++
+					okv := false
+					for _, o := range origins(st.Val) {
+						switch x := o.(type) {
+						case *ssa.Slice:
+							if f, isF := fieldOfLoad(x.X); isF && strings.HasSuffix(f, "Tokenizer.json") {
+								okv = true
+							}
+						case *ssa.Extract:
+							if call, isC := x.Tuple.(*ssa.Call); isC {
+								if g := staticCallee(call.Common()); g != nil && strings.HasPrefix(g.Name(), "parse") {
+									okv = true
+								}
+							}
+						case *ssa.Const:
+							okv = true // nil (Reset)
+						}
+					}
+					if !okv {
+						bad = c.InstrPos(st)
+					}
+				}
+			}
+			switch {
+			case n == 0:
+				b.addP(props, core.Undecided, key, c.FuncPos(fn), "Tokenizer.Next does not store t.Value")
+			case bad != "":
+				b.addP(props, core.Violation, key, bad, "Tokenizer.Next stores a Value at "+bad+" that is neither a window t.json[:k] of the input nor the result of a scanner: the token's bytes are right but they are not the bytes of the document, so the Value does not end Remaining() bytes before the end of the input, and memory shared by all tokenizers is handed to the caller")
+			default:
+				b.addP(props, core.Discharged, key, c.FuncPos(fn), fmt.Sprintf("%d stores of t.Value, each a window of t.json or a scanner's result", n))
+			}
+		}
+	}
+	// (o) the map decoders merge into the map the target already holds: a new map is made only when
+	// the target's is nil ("maps are merged": {} into a map with entries leaves them)
+	{
+		props := []string{"C02"}
+		key := "decode-map:allocates-only-when-nil"
+		n, bad := 0, ""
+		for _, fn := range c.RepoFunctions() {
+			name := shortName(fn)
+			if fn.Blocks == nil || !strings.HasPrefix(name, "json.(decoder).decodeMap") {
+				continue
+			}
+			for _, blk := range fn.Blocks {
+				for _, in := range blk.Instrs {
+					isAlloc := false
+					switch x := in.(type) {
+					case *ssa.MakeMap:
+						isAlloc = true
+					case *ssa.Call:
+						cn := calleeName(x.Common())
+						isAlloc = cn == "reflect.MakeMap" || cn == "reflect.MakeMapWithSize"
+					}
+					if !isAlloc {
+						continue
+					}
+					n++
+					guarded := false
+					for _, a := range trueAtoms(blk, 0) {
+						switch x := a.(type) {
+						case *ssa.BinOp:
+							if x.Op == token.EQL && (isNilConst(x.X) || isNilConst(x.Y)) {
+								guarded = true
+							}
+						case *ssa.Call:
+							if g := staticCallee(x.Common()); g != nil && g.Name() == "IsNil" {
+								guarded = true
+							}
+						}
+					}
+					if !guarded {
+						bad = c.InstrPos(in) + " (" + name + ")"
+					}
+				}
+			}
+		}
+		switch {
+		case n == 0:
+			b.addP(props, core.Undecided, key, "-", "no map allocation found in json's map decoders")
+		case bad != "":
+			b.addP(props, core.Violation, key, bad, "a map decoder makes a new map at "+bad+" without having found the target's map nil: the entries left by earlier decodes (or put there by the caller) are dropped, where encoding/json merges — {} into a map with entries empties it")
+		default:
+			b.addP(props, core.Discharged, key, "-", fmt.Sprintf("%d map allocations in decodeMap*, each under a nil test of the target's map", n))
+		}
+	}
+	// (p) the interface decoders look at null before anything else: null into an interface that
+	// holds a pointer sets the interface to nil (encoding/json), it is not decoded through the
+	// pointer
+	// (decodeInterface, for the predeclared any, tests null inside its pointer branch: for a held **T
+	// encoding/json does decode null through the outer pointer — it is not held to this shape)
+	for _, fname := range []string{"json.(decoder).decodeMaybeEmptyInterface"} {
+		props := []string{"C02"}
+		key := "interface-null-first:" + strings.TrimPrefix(fname, "json.(decoder).")
+		fn := c.Lookup(fname)
+		if fn == nil {
+			b.addP(props, core.Undecided, key, "-", fname+" not found")
+			continue
+		}
+		var nullTest ssa.Instruction
+		for _, ci := range callsIn(fn) {
+			if g := staticCallee(ci.Common()); g != nil && g.Name() == "hasNullPrefix" && nullTest == nil {
+				nullTest = ci.(ssa.Instruction)
+			}
+		}
+		if nullTest == nil {
+			b.addP(props, core.Violation, key, c.FuncPos(fn), fname+" no longer tests for null")
+			continue
+		}
+		bad := ""
+		for _, ci := range callsIn(fn) {
+			in := ci.(ssa.Instruction)
+			if in == nullTest {
+				continue
+			}
+			cn := calleeName(ci.Common())
+			g := staticCallee(ci.Common())
+			follows := strings.HasPrefix(cn, "reflect.") || (g != nil && (g.Name() == "parse" || strings.HasPrefix(g.Name(), "decode")))
+			if follows && !instrDominates(nullTest, in) {
+				bad = c.InstrPos(in) + " (" + cn + ")"
+			}
+		}
+		if bad != "" {
+			b.addP(props, core.Violation, key, bad, fname+" inspects or decodes through the value the interface holds at "+bad+" on a path that has not tested the input for null: null into an interface holding a non-nil pointer is then decoded through the pointer (which keeps the interface non-nil) where encoding/json sets the interface to nil")
+		} else {
+			b.addP(props, core.Discharged, key, c.InstrPos(nullTest), "hasNullPrefix dominates every use of the held value")
+		}
+	}
+	// (q) a codec function is always handed the address of a value: testing that address against nil
+	// tests nothing — the nil that matters is the pointer stored there (a nil pointer map key is
+	// written as "", not null)
+	{
+		props := []string{"C01", "C06"}
+		key := "codec-data-pointer:never-compared-with-nil"
+		n, bad := 0, ""
+		for _, fn := range c.RepoFunctions() {
+			if fn.Blocks == nil || !strings.HasPrefix(shortName(fn), "json.") {
+				continue
+			}
+			var dp *ssa.Parameter
+			for _, p := range fn.Params {
+				if p.Name() == "p" && p.Type().String() == "unsafe.Pointer" {
+					dp = p
+				}
+			}
+			if dp == nil {
+				continue
+			}
+			n++
+			for _, blk := range fn.Blocks {
+				for _, in := range blk.Instrs {
+					bo, ok := in.(*ssa.BinOp)
+					if !ok || (bo.Op != token.EQL && bo.Op != token.NEQ) {
+						continue
+					}
+					if (bo.X == ssa.Value(dp) && isNilConst(bo.Y)) || (bo.Y == ssa.Value(dp) && isNilConst(bo.X)) {
+						bad = c.InstrPos(bo) + " (" + shortName(fn) + ")"
+					}
+				}
+			}
+		}
+		switch {
+		case n == 0:
+			b.addP(props, core.Undecided, key, "-", "no json function with a data pointer parameter p")
+		case bad != "":
+			b.addP(props, core.Violation, key, bad, "the data pointer p itself is compared with nil at "+bad+": p is the address of the value and never nil, so the branch is dead — where it replaced a test of the pointer stored at p (a nil pointer map key), the nil case now reaches the encoder, which writes null where a key must be a string: {null:0} is not JSON")
+		default:
+			b.addP(props, core.Discharged, key, "-", fmt.Sprintf("%d json functions with a data pointer parameter, none compares it with nil", n))
+		}
+	}
+	// (r) proto looks through every level of indirection to classify a field: baseTypeOf loops
+	{
+		props := []string{"C03", "C12"}
+		key := "base-type:strips-every-pointer-level"
+		fn := c.Lookup("proto.baseTypeOf")
+		switch {
+		case fn == nil:
+			b.addP(props, core.Undecided, key, "-", "proto.baseTypeOf not found")
+		case len(loopHeaders(fn)) == 0:
+			b.addP(props, core.Violation, key, c.FuncPos(fn), "proto.baseTypeOf no longer loops: only one pointer level is removed, so a field of type **T (or []**T, map[K]**T) is classified by the kind Ptr instead of Struct, loses its embedded flag and is written without a length prefix — the message does not decode")
+		default:
+			b.addP(props, core.Discharged, key, c.FuncPos(fn), "baseTypeOf loops while the kind is Ptr")
+		}
+	}
+	// (s) a pooled encoder buffer still holds what its previous user wrote: wherever its data is
+	// handed to the encoder as a destination it is truncated first (buf.data[:0])
+	{
+		props := []string{"C15", "C01", "C09"}
+		key := "pooled-encoder-buffer:truncated-before-use"
+		n, bad := 0, ""
+		for _, fn := range c.RepoFunctions() {
+			if fn.Blocks == nil || !strings.HasPrefix(shortName(fn), "json.") {
+				continue
+			}
+			for _, ci := range callsIn(fn) {
+				// the encoder's entry points: what they are handed is appended to
+				g := staticCallee(ci.Common())
+				if g == nil || g.Pkg == nil || g.Pkg.Pkg.Name() != "json" {
+					continue
+				}
+				isEnc := g.Name() == "Append" || g.Name() == "appendValue"
+				if recv := g.Signature.Recv(); recv != nil && namedKey(recv.Type()) == "json.encoder" {
+					isEnc = true
+				}
+				if !isEnc {
+					continue
+				}
+				for _, a := range ci.Common().Args {
+					f, isF := fieldOfLoad(a)
+					if isF && strings.HasSuffix(f, "encoderBuffer.data") {
+						if _, isB := ci.Common().Value.(*ssa.Builtin); isB {
+							continue // len, copy: reading what was just encoded
+						}
+						n++
+						bad = c.InstrPos(ci) + " (" + shortName(fn) + ")"
+						continue
+					}
+					if sl, isS := a.(*ssa.Slice); isS {
+						if f2, isF2 := fieldOfLoad(sl.X); isF2 && strings.HasSuffix(f2, "encoderBuffer.data") {
+							n++
+							if h, isK := constInt(sl.High); sl.High == nil || !isK || h != 0 {
+								bad = c.InstrPos(ci) + " (" + shortName(fn) + ")"
+							}
+						}
+					}
+				}
+			}
+		}
+		switch {
+		case n == 0:
+			b.addP(props, core.Undecided, key, "-", "no use of a pooled encoderBuffer's data as an argument found")
+		case bad != "":
+			b.addP(props, core.Violation, key, bad, "the data of a pooled encoder buffer is handed on at "+bad+" without being truncated to [:0]: it still holds the output of the call that used the buffer before, which ends up in front of the encoding of this value")
+		default:
+			b.addP(props, core.Discharged, key, "-", fmt.Sprintf("%d uses of a pooled buffer's data as a destination, each as data[:0]", n))
+		}
+	}
+	// (t) a json.Number is text supplied by the program: its syntax is checked before it is copied
+	// into the output whatever the flags are (TrustRawMessage vouches for RawMessage values only)
+	{
+		props := []string{"C14", "C01"}
+		key := "encode-number:validated-under-every-flag"
+		fn := c.Lookup("json.(encoder).encodeNumber")
+		if fn == nil {
+			b.addP(props, core.Undecided, key, "-", "json.(encoder).encodeNumber not found")
+		} else {
+			var val ssa.CallInstruction
+			for _, ci := range callsIn(fn) {
+				if g := staticCallee(ci.Common()); g != nil && g.Name() == "parseNumber" {
+					val = ci
+				}
+			}
+			switch {
+			case val == nil:
+				b.addP(props, core.Violation, key, c.FuncPos(fn), "encodeNumber no longer checks the literal with parseNumber: Number(\"12abc\") is copied into the output")
+			default:
+				cond := ""
+				for _, e := range dominatingEdges(val.Block()) {
+					if dependsOn(e.ifi.Cond, func(x ssa.Value) bool {
+						f, ok := fieldOfLoad(x)
+						return ok && strings.HasSuffix(f, "encoder.flags")
+					}) {
+						cond = c.InstrPos(e.ifi)
+					}
+				}
+				if cond != "" {
+					b.addP(props, core.Violation, key, c.InstrPos(val), "encodeNumber checks the literal only under a test of the encoder's flags ("+cond+"): under the other setting Number(\"7,\\\"admin\\\":true\") is copied into the output as it is — invalid JSON, or an extra member, for some flag subsets and an error for the others")
+				} else {
+					b.addP(props, core.Discharged, key, c.InstrPos(val), "parseNumber validates the literal on every path, whatever the flags")
+				}
+			}
+		}
+	}
+	// (u) the option setters of thrift's Decoder and Encoder change the bit they are about and leave
+	// the protocol features (set by NewDecoder/Reset from the protocol) alone
+	for _, fname := range []string{"thrift.(*Decoder).SetStrict"} {
+		props := []string{"C04", "C08"}
+		key := "thrift-option:keeps-protocol-features:" + strings.TrimPrefix(fname, "thrift.")
+		fn := c.Lookup(fname)
+		pf, okPF := thriftConst(c, "protocolFlags")
+		if fn == nil || !okPF {
+			b.addP(props, core.Undecided, key, "-", fname+" or protocolFlags not found")
+			continue
+		}
+		bind := map[ssa.Value]maskVal{}
+		for _, blk := range fn.Blocks {
+			for _, in := range blk.Instrs {
+				if ld, ok := in.(*ssa.UnOp); ok && ld.Op == token.MUL {
+					if fa, isFA := ld.X.(*ssa.FieldAddr); isFA && strings.HasSuffix(fa.Type().String(), "thrift.flags") {
+						bind[ld] = maskVal{keep: ^uint64(0)}
+					}
+				}
+			}
+		}
+		n, bad := 0, ""
+		for _, blk := range fn.Blocks {
+			for _, in := range blk.Instrs {
+				st, ok := in.(*ssa.Store)
+				if !ok {
+					continue
+				}
+				fa, isFA := st.Addr.(*ssa.FieldAddr)
+				if !isFA || !strings.HasSuffix(fa.Type().String(), "thrift.flags") {
+					continue
+				}
+				n++
+				m := evalMask(st.Val, nil, bind, 0, map[ssa.Value]bool{})
+				if m.isConst {
+					m.keep = 0
+				}
+				if m.keep&uint64(pf) != uint64(pf) {
+					bad = c.InstrPos(st)
+				}
+			}
+		}
+		switch {
+		case n == 0:
+			b.addP(props, core.Undecided, key, c.FuncPos(fn), "no store to the flags field found")
+		case bad != "":
+			b.addP(props, core.Violation, key, bad, fname+" stores flags that do not keep the protocol feature bits of the old value: after the call the decoder no longer knows that the compact protocol folds booleans into the field header (and delta-encodes ids), so a bool field consumes the next byte of the stream as its value")
+		default:
+			b.addP(props, core.Discharged, key, c.FuncPos(fn), fmt.Sprintf("%d stores to the flags, each keeps the protocol feature bits", n))
+		}
+	}
+	// (v) iso8601 computes with 64-bit integers: a 64-bit quantity narrowed to the platform's int
+	// before it is multiplied or added (days*86400) wraps on 32-bit targets for every date outside
+	// 1901-2038, while the same code is exact on amd64
+	{
+		props := []string{"C18"}
+		key := "iso8601:no-platform-width-arithmetic"
+		n, bad := 0, ""
+		for _, fn := range c.RepoFunctions() {
+			if fn.Blocks == nil || !strings.HasPrefix(shortName(fn), "iso8601.") {
+				continue
+			}
+			n++
+			for _, blk := range fn.Blocks {
+				for _, in := range blk.Instrs {
+					cv, ok := in.(*ssa.Convert)
+					if !ok || cv.Referrers() == nil {
+						continue
+					}
+					tt, ok1 := cv.Type().Underlying().(*types.Basic)
+					ft, ok2 := cv.X.Type().Underlying().(*types.Basic)
+					if !ok1 || !ok2 || !(tt.Kind() == types.Int || tt.Kind() == types.Uint) || !(ft.Kind() == types.Uint64 || ft.Kind() == types.Int64) {
+						continue
+					}
+					if _, isK := cv.X.(*ssa.Const); isK {
+						continue
+					}
+					for _, ref := range *cv.Referrers() {
+						if bo, isBO := ref.(*ssa.BinOp); isBO && (bo.Op == token.MUL || bo.Op == token.ADD || bo.Op == token.SUB || bo.Op == token.SHL) {
+							bad = c.InstrPos(bo) + " (" + shortName(fn) + ")"
+						}
+					}
+				}
+			}
+		}
+		switch {
+		case n == 0:
+			b.addP(props, core.Undecided, key, "-", "no function of package iso8601 found")
+		case bad != "":
+			b.addP(props, core.Violation, key, bad, "a 64-bit value is converted to the platform-width int and then used in arithmetic at "+bad+": on a target with 32-bit int the product wraps (days since the epoch times 86400 exceeds 2^31 from 2038 on), so Parse returns another instant there than time.Parse does — 2038-01-19T03:14:08Z comes back as 1901-12-13T20:45:52Z")
+		default:
+			b.addP(props, core.Discharged, key, "-", fmt.Sprintf("%d functions of package iso8601: no 64-bit value is narrowed to int/uint before arithmetic", n))
+		}
+	}
 	// (a) proto's entry points describe the value to the codec with the same constant flags: Size,
 	// Marshal and MarshalTo all size and encode a top-level value (inline|toplevel) — the Message and
 	// custom codecs write a length prefix unless told they are at top level, so an entry point that
